@@ -61,6 +61,7 @@ type c15Case struct {
 	Headers   []string `json:"headers"`
 	BodyHex   string `json:"body_hex"`
 	Desc      string `json:"desc"`
+	History   []string `json:"history_before,omitempty"` // earlier requests answered by the same server process
 	// observations
 	Reached     bool   `json:"handler_reached"`
 	HandlerPath string `json:"handler_path_hex,omitempty"`
